@@ -10,7 +10,7 @@ from av.props import simprop
 MANIFEST_ENTRY = {
     "category": "exploration",
     "technique": "reference-model monitor: one-step-ahead recomputation of every flow and stock from the recorded state by an independent implementation of the documented conversion rules, plus a pure-function check of the time grid over a dense (start, end, dt) lattice",
-    "text": "(a) ProjectSettings is driven over a lattice of starts x step sizes x spans (and random triples, including non-representable steps and spans the step does not divide): tvec[k] = start + k*dt, last point = first grid point >= requested end, Model.t identical, re-assigning sim_end idempotent. (b) For every generated model and the library models, every flow at every step is recomputed from the recorded parameter values and stocks with an independent implementation of the documented per-unit conversion, number disaggregation, rescaling above 1, per-bin handling in timed compartments, junction splitting; the next stock is recomputed from stock + flows. By induction over steps this is the statement that an independent re-implementation reproduces the trajectories, without letting rounding drift in stiff runs masquerade as a violation. About a third of the generated runs carry a generated program set (program-driven rates, numbers and junction proportions, boundary outcomes of exactly 0). The grid is also reached through update_time_vector in four argument forms from three other previous grids and by moving the start year alone (update_time_vector(start=...), the sim_start setter) to off-grid values, and must equal the grid of fresh settings.",
+    "text": "(a) ProjectSettings is driven over a lattice of starts x step sizes x spans (and random triples, including non-representable steps and spans the step does not divide): tvec[k] = start + k*dt, last point = first grid point >= requested end, Model.t identical, re-assigning sim_end idempotent. (b) For every generated model and the library models, every flow at every step is recomputed from the recorded parameter values and stocks with an independent implementation of the documented per-unit conversion, number disaggregation, rescaling above 1, per-bin handling in timed compartments, junction splitting; the next stock is recomputed from stock + flows. By induction over steps this is the statement that an independent re-implementation reproduces the trajectories, without letting rounding drift in stiff runs masquerade as a violation. About a third of the generated runs carry a generated program set (program-driven rates, numbers and junction proportions, boundary outcomes of exactly 0). The grid is also reached through update_time_vector in four argument forms from three other previous grids and by moving the start year alone (update_time_vector(start=...), the sim_start setter) to off-grid values, and must equal the grid of fresh settings. Integral (start, end, step) triples are handed to the project as integers in 60% of such cases.",
     "note": "The reference takes recorded parameter values as inputs (C06 checks those) and the state at index 0 (C07). rtol 1e-8 as stated by the property.",
 }
 
